@@ -77,6 +77,16 @@ def handle (fn : String) (a : Json) : Option (Except String Json) :=
       let cur ← a.getObjValAs? String "cur"
       let f ← a.getObjValAs? Bool "force"
       pure (Json.str (delStr (execDelete ex cur f)))
+  | "rest.execDeleteReq" => some do
+      let ex ← a.getObjValAs? Bool "exists"
+      let cur ← a.getObjValAs? String "cur"
+      let f : Option String ← match a.getObjVal? "force" with
+        | .ok (Json.str t) => pure (some t)
+        | .ok Json.null => pure none
+        | _ => throw "bad force"
+      pure (Json.str (match execDeleteReq ex cur f with
+        | .badRequest => "badRequest"
+        | .res r => delStr r))
   | "rest.taskPut" => some do
       let ex ← a.getObjValAs? Bool "exists"
       let n ← a.getObjValAs? Bool "nameOk"
